@@ -19,17 +19,22 @@ from props import c01
 
 ID = "C02"
 MANIFEST = dict(
-    technique="Coq proof (in-place when unique, copy once per holder, drop_lhs restores uniqueness) on the Rc heap machine + "
-              "Rc-graph isomorphism model/implementation + counting-allocator scaling measurement",
+    technique="Coq proof (make_mut cost; set_index in place through unshared paths at any depth; flat: unaliased stays unique, copy once, "
+              "drop_lhs restores uniqueness) on the Rc heap machine + Rc-graph isomorphism model/implementation + counting-allocator "
+              "scaling measurement",
     text="Machine-checked theorems (Coq 8.16, no axioms) about the Gallina Rc heap machine Rc/Heap.v+Cow.v (explicit strong counts, "
-         "make_mut with a `copied` cost counter): a mutation through a path of uniquely owned cells copies nothing and keeps every "
-         "location; statement sequences that never copy a variable keep it unique; a shared level is copied once and is unique "
-         "afterwards; op-assign hands a unique value to the operator because drop_lhs releases the variable's handle. The machine is "
-         "tied to /repo on every run by comparing its heap with the implementation's real Rc graph (addresses, strong counts) after "
-         "every statement of generated histories, and the O(n+k) clause is measured directly with a counting global allocator.",
-    note="Trusted: Coq kernel; hand-written machine (tie to the code is the Rc-graph isomorphism run, differential testing on generated "
-         "histories); extraction + OCaml runner; Rust harness c02.rs (graph walk borrows only; counting allocator); Python comparator. "
-         "Real allocation volume and Vec growth are measured, not proved. See notes/C02.md for the fragment each theorem covers.",
+         "make_mut with a `copied` cost counter, locations never reused): make_mut is the identity at count 1 and one payload copy "
+         "otherwise; set_index through a path of count-1 cells copies nothing, creates no location and keeps the handle (any depth, "
+         "all payload kinds); on flat lists: a sequence of index-assign/append=/+=/pop/remove on an unaliased list copies 0 elements "
+         "and keeps it unaliased (the O(n+k) clause), a shared list is copied exactly once and is unaliased afterwards, drop_lhs makes "
+         "the operator's argument unique. The machine is tied to /repo on every run by comparing its heap with the implementation's "
+         "real Rc graph (addresses, strong counts) after every statement of generated histories; the O(n+k) clause is measured "
+         "directly with a counting global allocator on 16 workloads at 6 size points, unaliased and once-aliased.",
+    note="The unaliased/copy-once/drop_lhs theorems are proved for the FLAT fragment only (list of scalars, paths of depth <= 1); nested "
+         "rows, dicts, struct fields and pop/remove/builtins at depth are covered by the graph comparison and the allocation "
+         "measurement, not by theorems (notes/C02.md). Trusted: Coq kernel; hand-written machine; extraction + OCaml runner; Rust "
+         "harness c02.rs (graph walk borrows only; counting allocator); Python comparator. Real allocation volume and Vec growth are "
+         "measured, not proved.",
     design="6-C02")
 
 
